@@ -89,6 +89,7 @@ def alts_of(test, pol=True, cap=8):
 
 
 def _atoms(test, pol):
+    test = _alpha(test)
     if isinstance(test, ast.Compare) and len(test.ops) == 1:
         l, r = norm(test.left), norm(test.comparators[0])
         op = test.ops[0]
@@ -485,7 +486,7 @@ class Pairing:
                                         extra = subst_name(fa, a.value.id, nm.id)
                                     fa = kill_name(fa, nm.id) | frozenset(extra)
                                     if isinstance(t, ast.Name) and not isinstance(a.value, ast.Name):
-                                        fa = fa | {atom("def", nm.id, norm(a.value))}
+                                        fa = fa | {atom("def", nm.id, norm(_alpha(a.value)))}
                     elif n.kind == "stmt" and isinstance(a, ast.AugAssign) and isinstance(a.target, ast.Name):
                         fa = kill_name(fa, a.target.id)
                     elif n.kind == "next":
@@ -540,6 +541,39 @@ class Pairing:
             else:
                 merged[k] = (re_, [fa], tk)
         self.results[f.key] = {"exit": ex, "events": list(merged.values()), "state": state, "fe": fe, "refusals": refusals, "refusal_tokens": refusal_tokens, "cascade": cascade}
+
+
+def _alpha(e):
+    """rename the variables bound by comprehensions inside e (they live in their own scope; a later loop variable of the same name
+    must not invalidate what was recorded about e)"""
+    import copy
+    hit = _alpha_cache.get(id(e))
+    if hit is not None and hit[0] is e:
+        return hit[1]
+    res = _alpha0(e, copy)
+    _alpha_cache[id(e)] = (e, res)
+    return res
+
+
+_alpha_cache = {}
+
+
+def _alpha0(e, copy):
+    bound = []
+    for n in ast.walk(e):
+        if isinstance(n, (ast.GeneratorExp, ast.ListComp, ast.SetComp, ast.DictComp)):
+            for g in n.generators:
+                for t in ast.walk(g.target):
+                    if isinstance(t, ast.Name):
+                        bound.append(t.id)
+    if not bound:
+        return e
+    ren = {b: "%s_cv" % b for b in bound}
+    e2 = copy.deepcopy(e)
+    for n in ast.walk(e2):
+        if isinstance(n, ast.Name) and n.id in ren:
+            n.id = ren[n.id]
+    return e2
 
 
 def expand_defs(text, facts, depth=3):
